@@ -203,7 +203,7 @@ class OfficeLANAdder(NetworkNodeAdder, discriminator="office-lan"):
                 switch.network_interface[24],
                 bandwidth=config.bandwidth,
             )
-        else:
+        elif config.include_router:
             network.connect(router.network_interface[1], switch.network_interface[24], bandwidth=config.bandwidth)
 
         # Add PCs to the LAN and connect them to switches
@@ -230,7 +230,7 @@ class OfficeLANAdder(NetworkNodeAdder, discriminator="office-lan"):
                         switch.network_interface[24],
                         bandwidth=config.bandwidth,
                     )
-                else:
+                elif config.include_router:
                     network.connect(
                         router.network_interface[1], switch.network_interface[24], bandwidth=config.bandwidth
                     )
